@@ -16,7 +16,7 @@ DEFAULT_PROFILE = dict(
     max_comps=5, min_comps=2, p_imp=0.25, p_feedback=0.4, allow_cycles=True, units=True, wild_units=True,
     styles=['dense', 'dense', 'sparse', 'sparse', 'matfree'], groups=True, index_forms=True,
     p_neg_index=0.15, p_f4=0.0, out_scaling=False, assembled=True, cyc_nl=['newton', 'newton', 'nlbgs', 'nlbgs', 'nlbj'],
-    cyc_ln=['direct', 'direct', 'krylov', 'lnbgs', 'lnbj'], approx=False, bounds=False, auto_ivc=0.0, promotions=0.0,
+    cyc_ln=['direct', 'direct', 'krylov', 'lnbgs', 'lnbj'], approx=False, bounds=False, auto_ivc=0.0, promotions=0.0, chains=0.0,
 )
 
 
@@ -189,12 +189,31 @@ def model_spec(draw, prof=None):
             tshape = _result_shape(src[1], idx, flat) if idx is not None else list(src[1])
             if tshape is None or int(np.prod(tshape)) == 0:
                 idx, flat, tshape = None, None, list(src[1])
+            idx2 = flat2 = None
+            if prof.get('chains') and idx is not None and chance(draw, prof['chains']):
+                # second level of indexing, applied by Group.promotes(..., src_indices=) to what the connection delivers
+                shape1 = list(tshape)
+                idx2, flat2 = _draw_index(draw, tshape, prof)
+                if idx2 is not None and 'a' in idx2 and flat2 is not True and len(tshape) >= 2:
+                    idx2, flat2 = None, None      # (non-tuple array on an N-D non-flat source: C05 finding F4 territory)
+                if idx2 is not None:
+                    t2 = _result_shape(tshape, idx2, flat2)
+                    if t2 is None or int(np.prod(t2)) == 0:
+                        idx2 = flat2 = None
+                    else:
+                        tshape = t2
             tunits = None
             if src[2] and draw(st.integers(0, 3)) > 0:
                 tunits = src[2] + '?'       # resolved below (mild or wild family member)
             iv = {'name': f"i{k}", 'shape': tshape, 'units': tunits}
             c['inputs'].append(iv)
             cn = {'src': src[0], 'tgt': '.'.join(c['path'] + [c['name'], iv['name']]), 'idx': idx, 'flat': flat}
+            if idx2 is not None:
+                cn['idx2'], cn['flat2'] = idx2, flat2
+                alias = f"{c['name']}_{iv['name']}p"
+                c.setdefault('promotes_idx', []).append([iv['name'], alias, idx2, flat2, shape1])
+                up = '.'.join(c['path'])
+                cn['tgt_p'] = (up + '.' if up else '') + alias
             conns.append(cn)
 
     # resolve target units
@@ -293,6 +312,8 @@ def model_spec(draw, prof=None):
             up = '.'.join(c['path'])
             for io, key in (('outputs', 'promotes_outputs'), ('inputs', 'promotes_inputs')):
                 for v in c[io]:
+                    if any(pi[0] == v['name'] for pi in c.get('promotes_idx', [])) and io == 'inputs':
+                        continue
                     if chance(draw, prof['promotions']):
                         new = f"{c['name']}_{v['name']}"
                         c.setdefault(key, []).append([v['name'], new])
